@@ -96,13 +96,6 @@ fn vx_sum_unpacked(chunks: &[CASChunkSequenceEntry]) -> (r: u32)
     ensures r == sum_unpacked(chunks@, 0, chunks@.len() as int),
 { chunks.iter().map(|sb| sb.unpacked_segment_bytes).sum() }
 
-// `usize -> u32` `try_into().unwrap()`: panics iff the value does not fit
-#[verifier::external_body]
-fn vx_usize_to_u32(x: usize) -> (r: u32)
-    requires x <= u32::MAX,
-    ensures r == x,
-{ x.try_into().unwrap() }
-
 impl FileDataSequenceEntry {
     #[verifier::external_body]
     fn default() -> (r: Self)
@@ -115,8 +108,6 @@ impl FileDataSequenceEntry {
 //@ subst `I1` => `usize` :: R11 monomorphised at the instance used by the caller under proof (I1 = usize)
 //@ subst `where <usize as TryInto<u32>>::Error: std::fmt::Debug,` => `` :: R11 bound of the erased type parameter
 //@ subst `chunks.iter().map(|sb| sb.unpacked_segment_bytes).sum()` => `vx_sum_unpacked(chunks)` :: R7 outline: iterator chain; contract assumed (u32 Sum = arithmetic sum when it fits)
-//@ subst `chunk_index_start.try_into().unwrap()` => `vx_usize_to_u32(chunk_index_start)` :: R7 outline: TryInto<u32> for usize, panics iff > u32::MAX
-//@ subst `chunk_index_end.try_into().unwrap()` => `vx_usize_to_u32(chunk_index_end)` :: R7 outline: TryInto<u32> for usize, panics iff > u32::MAX
 //@ contract
         requires
             sum_unpacked(chunks@, 0, chunks@.len() as int) <= u32::MAX,
@@ -148,6 +139,12 @@ impl MDBInMemoryShard {
             &&& cas_fits(*e.0)
         }
     }
+
+    // base case of the invariant: `MDBInMemoryShard::default()` (empty lookup) is wf
+    proof fn lemma_wf_empty(&self)
+        requires self.chunk_hash_lookup@ == Map::<MerkleHash, (Arc<MDBCASInfo>, u64)>::empty(),
+        ensures self.wf(),
+    {}
 
 //@ extract mdb_shard/src/shard_in_memory.rs in `impl MDBInMemoryShard` fn add_cas_block
 //@ ret r
@@ -214,7 +211,7 @@ impl MDBInMemoryShard {
         proof {
             let s = chunk_ref.chunks@; let a = chunk_index_start as int; let b = a + query_idx;
             lemma_sum_sub(s, a, b);
-            lemma_sum_mono(s, 0, a, b); lemma_sum_mono(s, 0, b, s.len() as int);
+            lemma_sum_mono(s, 0, a, b); lemma_sum_mono(s, 0, b, s.len() as int); lemma_sum_mono(s, b, s.len() as int, s.len() as int);
         }
 //@ end
 }
